@@ -78,6 +78,8 @@ func emit(items []*Item) string {
 		return fmt.Sprintf("(.opt %s %s %s)", q(it.Name), emit(it.A), emit(rest))
 	case "rep":
 		return fmt.Sprintf("(.rep .%s %s %s %s)", it.Prim, q(it.Name), emit(it.A), emit(rest))
+	case "times":
+		return fmt.Sprintf("(.times %s %s %s %s)", it.Val, q(it.Name), emit(it.A), emit(rest))
 	case "wrap":
 		return fmt.Sprintf("(.wrap %s %s)", emit(it.A), emit(rest))
 	case "hdr":
@@ -246,6 +248,7 @@ type ctx struct {
 	loopElem  string    // reader: struct type of the current loop's elements
 	madeTable string    // reader: this.F = make(...) seen just before the loop
 	subStream string    // stream used by the sub-blocks of the item being built
+	inTimes   int       // inside a constant-bound loop: this.F[i] denotes cell i of F
 }
 
 type pendingCount struct {
@@ -576,6 +579,42 @@ func (c *ctx) wArg(prim string, arg ast.Expr, cur string) error {
 		c.add(cur, &Item{Kind: "var", Name: id.Name, Prim: prim})
 		return nil
 	}
+	// this.F[i] inside a constant-bound loop: cell i of the array F
+	if ix, ok := inner.(*ast.IndexExpr); ok && c.inTimes > 0 {
+		if f, owner, ok := c.fieldOf(ix.X); ok {
+			et := elemTypeOf(c.fieldType(owner, f))
+			_, conv := stripConv(arg)
+			p := prim
+			rng := rngOfType(et)
+			// WriteShort(int16(x)) of a wider cell: the low 16 bits travel
+			if prim == "i16" && conv == "int16" && convWidth[et] > 2 {
+				p, rng = "u16", "any"
+			}
+			c.add(cur, &Item{Kind: "fld", Name: f, Prim: p, Rng: rng})
+			return nil
+		}
+	}
+	// ent.GetValue().(*T).F : a field of the entry's value
+	if fs, ok := inner.(*ast.SelectorExpr); ok {
+		if ta, ok := fs.X.(*ast.TypeAssertExpr); ok {
+			if gc, ok := ta.X.(*ast.CallExpr); ok {
+				if gs, ok := gc.Fun.(*ast.SelectorExpr); ok && gs.Sel.Name == "GetValue" {
+					if id, ok := gs.X.(*ast.Ident); ok {
+						if _, ok := c.ents[id.Name]; ok {
+							if t := c.fieldType(typeName(ta.Type), fs.Sel.Name); t != nil {
+								rng := rngOfType(typeName(t))
+								if natRng(prim) == "any" {
+									rng = "any"
+								}
+								c.add(cur, &Item{Kind: "fld", Name: fs.Sel.Name, Prim: prim, Rng: rng})
+								return nil
+							}
+						}
+					}
+				}
+			}
+		}
+	}
 	// e.GetKey() / e.GetValue()
 	if call, ok := inner.(*ast.CallExpr); ok {
 		if sel, ok := call.Fun.(*ast.SelectorExpr); ok {
@@ -727,6 +766,22 @@ func (c *ctx) wFor(cond ast.Expr, body *ast.BlockStmt, cur string) error {
 	if b, ok := cond.(*ast.BinaryExpr); ok && b.Op == token.LSS {
 		if tab, ok := c.tableOf(b.Y); ok {
 			return c.wLoop(tab, body, cur)
+		}
+		// for i := 0; i < CONST; i++ : a fixed number of cells (parallel arrays this.A[i], this.B[i])
+		if id, isConst := b.Y.(*ast.Ident); isConst {
+			if n, ok := consts[id.Name]; ok && c.pending == nil {
+				outer := c.subStream
+				c.subStream = ""
+				c.inTimes++
+				l, err := c.sub(cur, func() error { return c.wBlock(body.List, cur) })
+				c.inTimes--
+				if err != nil {
+					return err
+				}
+				c.addSub(cur, &Item{Kind: "times", Val: strconv.FormatInt(n, 10), Name: "", A: l})
+				c.subStream = outer
+				return nil
+			}
 		}
 	}
 	if call, ok := cond.(*ast.CallExpr); ok {
@@ -957,6 +1012,17 @@ func (c *ctx) scanRoles(body *ast.BlockStmt) {
 				if id, ok := s.Args[1].(*ast.Ident); ok {
 					c.setRole(id.Name, "fld:val")
 				}
+				if call, ok := s.Args[1].(*ast.CallExpr); ok {
+					if id, ok := call.Fun.(*ast.Ident); ok {
+						if fields, ok := ctorParams[id.Name]; ok && len(fields) == len(call.Args) {
+							for i, a := range call.Args {
+								if ai, ok := a.(*ast.Ident); ok {
+									c.setRole(ai.Name, "fld:"+fields[i])
+								}
+							}
+						}
+					}
+				}
 			}
 			if id, ok := s.Fun.(*ast.Ident); ok && id.Name == "make" && len(s.Args) >= 2 {
 				if x, ok := s.Args[1].(*ast.Ident); ok {
@@ -1117,6 +1183,12 @@ type wrapFix struct {
 
 var ctorType = map[string]string{}
 
+// ctorParams: constructor NewT(a, b, c) whose body is `p.F = a; p.G = b; …` -> the field each parameter fills
+var ctorParams = map[string][]string{}
+
+// ctorOnly: plain functions that only allocate (body: a New…/make call and a return)
+var ctorOnly = map[string]bool{}
+
 func (c *ctx) elemOwner() string {
 	if c.loopElem != "" {
 		return c.loopElem
@@ -1137,9 +1209,31 @@ func (c *ctx) rAssign(s *ast.AssignStmt, cur string) error {
 	}
 	// this.F[i] = T{} | this.F[i] = T{a,b,c}   (zero value / forwarded locals)
 	if ix, ok := lhs.(*ast.IndexExpr); ok {
-		if _, _, ok := c.fieldOf(ix.X); ok {
+		if f, owner, ok := c.fieldOf(ix.X); ok {
 			if _, ok := rhs.(*ast.CompositeLit); ok {
 				return nil
+			}
+			if c.inTimes > 0 {
+				// this.F[i] = T(in.ReadShort()) & 0xffff : the low 16 bits, unsigned
+				if b, ok := rhs.(*ast.BinaryExpr); ok && b.Op == token.AND {
+					if m, ok := intLit(b.Y); ok && m == "65535" {
+						if st, p, _, ok := c.readCall(b.X); ok && p == "i16" {
+							c.add(st, &Item{Kind: "fld", Name: f, Prim: "u16", Rng: "any"})
+							return nil
+						}
+					}
+				}
+				if st, p, conv, ok := c.readCall(rhs); ok {
+					rng := rngOfType(elemTypeOf(c.fieldType(owner, f)))
+					if conv != "" && rngOfType(conv) != "any" {
+						rng = rngOfType(conv)
+					}
+					if natRng(p) == "any" {
+						rng = "any"
+					}
+					c.add(st, &Item{Kind: "fld", Name: f, Prim: p, Rng: rng})
+					return nil
+				}
 			}
 		}
 		return unk("reader: %s", exprStr(s))
@@ -1190,6 +1284,10 @@ func (c *ctx) rAssign(s *ast.AssignStmt, cur string) error {
 		// this.F = make(...) | this.F = value.NewMapValue() | hmap.NewX(...)   — allocation, no I/O
 		if id, ok := call.Fun.(*ast.Ident); ok && id.Name == "make" {
 			c.madeTable = f
+			return nil
+		}
+		// this.F = CreateMap(n) : a table allocated by a helper that touches no stream and no field
+		if id, ok := call.Fun.(*ast.Ident); ok && ctorOnly[id.Name] && !c.mentionsStream(call) {
 			return nil
 		}
 		if sel, ok := call.Fun.(*ast.SelectorExpr); ok && strings.HasPrefix(sel.Sel.Name, "New") {
@@ -1297,6 +1395,20 @@ func (c *ctx) rCall(call *ast.CallExpr, cur string) error {
 				}
 				return nil
 			case *ast.CallExpr: // NewT().Read(in)  |  NewT(count, err, time) of forwarded locals
+				if id, ok := v.Fun.(*ast.Ident); ok {
+					if fields, ok := ctorParams[id.Name]; ok && len(fields) == len(v.Args) {
+						all := true
+						for i, a := range v.Args {
+							ai, isId := a.(*ast.Ident)
+							if !isId || c.roles[ai.Name] != "fld:"+fields[i] {
+								all = false
+							}
+						}
+						if all {
+							return nil
+						}
+					}
+				}
 				if vs, ok := v.Fun.(*ast.SelectorExpr); ok && vs.Sel.Name == "Read" && len(v.Args) == 1 {
 					if st, ok := c.streamOf(v.Args[0]); ok {
 						if ctor, ok := vs.X.(*ast.CallExpr); ok {
@@ -1320,6 +1432,19 @@ func (c *ctx) rFor(s *ast.ForStmt, cur string) error {
 	b, ok := s.Cond.(*ast.BinaryExpr)
 	if !ok || b.Op != token.LSS {
 		return unk("reader: loop %s", exprStr(s.Cond))
+	}
+	if id, isId := b.Y.(*ast.Ident); isId && c.pending == nil {
+		if n, isConst := consts[id.Name]; isConst {
+			c.inTimes++
+			body, err := c.sub(cur, func() error { return c.rBlock(s.Body.List, cur) })
+			c.inTimes--
+			c.madeTable = ""
+			if err != nil {
+				return err
+			}
+			c.addSub(cur, &Item{Kind: "times", Val: strconv.FormatInt(n, 10), Name: "", A: body})
+			return nil
+		}
 	}
 	x, ok := b.Y.(*ast.Ident)
 	if !ok || c.pending == nil || c.pending.local != x.Name {
@@ -1579,6 +1704,56 @@ func main() {
 				// constructors: func NewX(...) *T
 				if t.Recv == nil && strings.HasPrefix(t.Name.Name, "New") && t.Type.Results != nil && len(t.Type.Results.List) == 1 {
 					ctorType[t.Name.Name] = typeName(t.Type.Results.List[0].Type)
+					var params []string
+					for _, pl := range t.Type.Params.List {
+						for _, n := range pl.Names {
+							params = append(params, n.Name)
+						}
+					}
+					fields := make([]string, len(params))
+					ast.Inspect(t.Body, func(n ast.Node) bool {
+						if as, ok := n.(*ast.AssignStmt); ok && len(as.Lhs) == 1 && len(as.Rhs) == 1 {
+							if ls, ok := as.Lhs[0].(*ast.SelectorExpr); ok {
+								if rid, ok := as.Rhs[0].(*ast.Ident); ok {
+									for i, pn := range params {
+										if pn == rid.Name {
+											fields[i] = ls.Sel.Name
+										}
+									}
+								}
+							}
+						}
+						return true
+					})
+					okAll := len(params) > 0
+					for _, f := range fields {
+						if f == "" {
+							okAll = false
+						}
+					}
+					if okAll {
+						ctorParams[t.Name.Name] = fields
+					}
+				}
+				if t.Recv == nil && t.Body != nil {
+					// func CreateMap(cnt int) *hmap.IntKeyMap { p := hmap.NewIntKeyMap(cnt, 1); return p }
+					only := len(t.Body.List) > 0
+					for _, st := range t.Body.List {
+						switch x := st.(type) {
+						case *ast.ReturnStmt:
+						case *ast.AssignStmt:
+							if len(x.Rhs) != 1 {
+								only = false
+							} else if call, ok := x.Rhs[0].(*ast.CallExpr); !ok || !strings.Contains(exprStr(call.Fun), "New") {
+								only = false
+							}
+						default:
+							only = false
+						}
+					}
+					if only && strings.HasPrefix(t.Name.Name, "Create") {
+						ctorOnly[t.Name.Name] = true
+					}
 				}
 			}
 		}
